@@ -3,11 +3,11 @@
 // uses are extracted verbatim and run on every report history up to the bound under a mock clock.
 #![allow(dead_code, unused_imports, unused_variables, unused_macros)]
 // tracing macros (shim: logging has no bearing on the property)
-macro_rules! trace { ($($t:tt)*) => {}; }
-macro_rules! debug { ($($t:tt)*) => {}; }
-macro_rules! info { ($($t:tt)*) => {}; }
-macro_rules! warn { ($($t:tt)*) => {}; }
-macro_rules! error { ($($t:tt)*) => {}; }
+macro_rules! trace { ($($t:tt)*) => { () }; }
+macro_rules! debug { ($($t:tt)*) => { () }; }
+macro_rules! info { ($($t:tt)*) => { () }; }
+macro_rules! warn { ($($t:tt)*) => { () }; }
+macro_rules! error { ($($t:tt)*) => { () }; }
 use std::collections::BTreeMap;
 use std::net::{SocketAddrV4, SocketAddrV6};
 use std::time::Duration;
